@@ -43,7 +43,9 @@ def make_cfg(rs, tier):
     cfg = _unbuf.base_cfg(rs, ID)
     cfg["p_outside"] = rs.choice([0.2, 0.35, 0.5])
     cfg["p_mut"] = rs.choice([0.1, 0.3, 0.5])
-    cfg["oracles"] = ["backend", "result"]
+    cfg["oracles"] = ["backend", "result", "children"]
+    cfg["p_synced_operand"] = rs.choice([0.0, 0.1, 0.2])
+    cfg["p_handle_store"] = rs.choice([0.0, 0.05, 0.1])
     return cfg
 
 
